@@ -36,9 +36,11 @@ ASSUME = [
     "termination of Pollard's rho with a proper factor is not proved; the model carries fuel and the correspondence "
     "requires the model never to run out of it on the explored inputs",
     "std::uintmax_t / std::size_t are 64-bit (LP64)",
-    "is_perfect_square is modelled with its wrapping `curr * curr` (it is wrong for some n >= 2^34+4, e.g. 2^34+4; "
-    "an exploration of all candidate iterates c in [2^32, 2^36) found no odd prime affected); the property does not "
-    "constrain it except through is_prime",
+    "is_perfect_square is modelled with its wrapping `curr * curr`: it answers true for some non-squares (2^34+4, ...). The odd "
+    "64-bit false positives found by an exploration outside this check (all iterates c in [2^32, 2^36) by brute force; all k-th "
+    "iterates in the structured regime k <= 24 by modular square roots) are replayed on every run (class "
+    "is_perfect_square_false_positives); one of them, 10785637507345693793, is PRIME: is_prime rejects it (PENDING_FINDINGS; "
+    "proved in Lean as C12_isPrime_counterexample). The exploration is not exhaustive: other such primes may exist",
 ]
 
 # Genuine defects of /repo awaiting a decision by the coordinator (narrow structural match).
@@ -777,7 +779,7 @@ def run_sharded(exe, lines, shards=16, heavy=lambda l: False, budget=300):
         env = dict(UBSAN_ENV)
         env["C12_LINE_BUDGET"] = str(budget)
         try:
-            rc, out, err = run([exe], inp="\n".join(lines[i] for i in idx) + "\n", env=env, timeout=budget * len(idx) + 600)
+            rc, out, err = run([exe], inp="\n".join(lines[i] for i in idx) + "\n", env=env, timeout=min(budget * len(idx) + 600, 14400))
         except Exception as ex:       # subprocess.TimeoutExpired
             return [], "", {"what": f"harness process did not finish: {ex}", "request": lines[idx[0]]}
         res = [l for l in out.split("\n") if l]
